@@ -1407,6 +1407,26 @@ func handleClientMessage(c *webClient, m clientMessage) error {
 				"cannot join multiple groups",
 			)
 		}
+		// We normally redirect at the HTTP level, but the group
+		// description could have been edited in the meantime.
+		// Check before adding the client, so that it doesn't
+		// become a member of the group it is redirected from.
+		if gg, err := group.Add(m.Group, nil); err == nil {
+			redirect := gg.Description().Redirect
+			if redirect != "" {
+				username := ""
+				if m.Username != nil {
+					username = *m.Username
+				}
+				return c.write(clientMessage{
+					Type:     "joined",
+					Kind:     "redirect",
+					Group:    m.Group,
+					Username: &username,
+					Value:    redirect,
+				})
+			}
+		}
 		c.data = m.Data
 		g, err := group.AddClient(m.Group, c,
 			group.ClientCredentials{
@@ -1444,18 +1464,6 @@ func handleClientMessage(c *webClient, m clientMessage) error {
 				Group:    m.Group,
 				Username: &username,
 				Value:    s,
-			})
-		}
-		if redirect := g.Description().Redirect; redirect != "" {
-			// We normally redirect at the HTTP level, but the group
-			// description could have been edited in the meantime.
-			username := c.username
-			return c.write(clientMessage{
-				Type:     "joined",
-				Kind:     "redirect",
-				Group:    m.Group,
-				Username: &username,
-				Value:    redirect,
 			})
 		}
 		c.group = g
